@@ -140,6 +140,9 @@ def body(run: Run, replay):
         if 2 not in b:
             yield "float-vs-int", np.array([MIX[x] for x in a], float), np.array([MIX[x] for x in b], int)
         yield "int32-vs-int64", np.array(a, np.int32), np.array(b, np.int64) + 0
+        # the answers depend on which values are EQUAL, not on their size: large neighbouring ids (Nastran id*10+dof keys) and large floats
+        yield "large ids", np.array(a, np.int64) + 9900100, np.array(b, np.int64) + 9900100
+        yield "large floats", np.array(a, float) * 2.0 + 1.0e6, np.array(b, float) * 2.0 + 1.0e6
 
     def do_mkdofpv(q, ans):
         fn = q["fn"]
